@@ -9,3 +9,8 @@ pub(crate) type ProofArrayAlias = Box<
         super::FirstProofGenerator::PROOF_LENGTH
             + (crate::protocol::context::dzkp_validator::MAX_PROOF_RECURSION - 1) * super::CompressedProofGenerator::PROOF_LENGTH],
 >;
+
+#[cfg(all(not(feature = "shuttle"), feature = "descriptive-gate"))]
+mod c03p {
+    include!(concat!(env!("IPA_VERIF_DIR"), "/c03p.rs"));
+}
